@@ -1,2 +1,97 @@
+"""Proof step of a check: regenerate facts, rebuild the property's Lean module and the driver, audit axioms."""
+import glob, json, os, re, subprocess, time
+
+ALLOWED = {"propext", "Classical.choice", "Quot.sound"}
+FORBIDDEN = re.compile(r"\bsorry\b|\badmit\b|^\s*axiom\s|native_decide|bv_decide|implemented_by|\bunsafe\s|maxHeartbeats\s+0")
+
+def sh(cmd, cwd=None, timeout=3000):
+    r = subprocess.run(cmd, cwd=cwd, stdout=subprocess.PIPE, stderr=subprocess.STDOUT, text=True, timeout=timeout)
+    return r.returncode, r.stdout
+
+def strip_comments(src):
+    src = re.sub(r"/-.*?-/", "", src, flags=re.S)
+    return "\n".join(l.split("--")[0] for l in src.splitlines())
+
+def theorems_of(path, pid):
+    src = strip_comments(open(path).read())
+    names = re.findall(r"^\s*theorem\s+([A-Za-z0-9_'.]+)", src, flags=re.M)
+    return ["Settlus.%s.%s" % (pid, n) for n in names]
+
 def run(pid, tier, ROOT, REPO, CACHE, res):
+    import fcntl
+    lean = os.path.join(ROOT, "lean")
+    lock = open(os.path.join(CACHE, "lean.lock"), "w")
+    fcntl.flock(lock, fcntl.LOCK_EX)
+    try:
+        # 1. regenerate the facts from /repo's working tree
+        gen = os.path.join(lean, "SettlusModel", "Generated")
+        rc, out = sh([os.path.join(CACHE, "extract"), "-repo", REPO, "-out", gen], timeout=900)
+        if rc != 0:
+            res["problems"].append(("facts", "the fact extractor no longer recognises the source:\n" + out[-3000:]))
+        try:
+            fj = json.load(open(os.path.join(gen, "facts.json")))
+            res["facts"] = {k: (len(v) if isinstance(v, list) else v) for k, v in fj.items()}
+        except Exception:
+            pass
+        # 2. prove: the property module, its dependencies, and the driver
+        prop = os.path.join(lean, "SettlusModel", "Properties", pid + ".lean")
+        if not os.path.exists(prop):
+            res["problems"].append(("proof", "no property module for " + pid))
+            return res
+        if tier == "thorough":
+            # rebuild the property module from clean
+            for ext in ("olean", "ilean", "c", "trace", "hash"):
+                for f in glob.glob(os.path.join(lean, ".lake", "build", "**", "Properties", pid + "." + ext), recursive=True):
+                    os.remove(f)
+        rc, out = sh(["lake", "build", "SettlusModel.Properties." + pid, "drv"], cwd=lean, timeout=3000)
+        thms = theorems_of(prop, pid)
+        res["theorems"] = thms
+        res["obligations"] = len(thms)
+        if rc != 0:
+            errs = "\n".join(l for l in out.splitlines() if "error" in l.lower() or l.startswith("  "))[-3000:]
+            res["problems"].append(("proof", "lake build SettlusModel.Properties.%s failed:\n%s" % (pid, errs)))
+            return res
+        # 3. audit
+        ad = os.path.join(CACHE, "audit")
+        os.makedirs(ad, exist_ok=True)
+        af = os.path.join(ad, pid + ".lean")
+        with open(af, "w") as f:
+            f.write("import SettlusModel.Properties.%s\n" % pid)
+            for t in thms:
+                f.write("#print axioms %s\n" % t)
+        rc, out = sh(["lake", "env", "lean", af], cwd=lean, timeout=900)
+        axioms = set()
+        ok = 0
+        for t in thms:
+            m = re.search(r"'%s' (depends on axioms: \[([^\]]*)\]|does not depend on any axioms)" % re.escape(t), out.replace("\n", " "))
+            if not m:
+                res["problems"].append(("audit", "no axiom report for " + t + ":\n" + out[-1500:]))
+                continue
+            used = set(x.strip() for x in (m.group(2) or "").split(",") if x.strip())
+            axioms |= used
+            if used - ALLOWED:
+                res["problems"].append(("audit", "%s depends on axioms outside the allowed set: %s" % (t, sorted(used - ALLOWED))))
+            else:
+                ok += 1
+        res["discharged"] = ok
+        res["axioms"] = sorted(axioms)
+        # 4. source scan
+        bad = []
+        for f in glob.glob(os.path.join(lean, "SettlusModel", "**", "*.lean"), recursive=True) + [os.path.join(lean, "Driver.lean")]:
+            for i, l in enumerate(strip_comments(open(f).read()).splitlines()):
+                if FORBIDDEN.search(l):
+                    bad.append("%s:%d: %s" % (os.path.relpath(f, lean), i + 1, l.strip()))
+        if bad:
+            res["problems"].append(("audit", "forbidden constructs in the Lean sources:\n" + "\n".join(bad[:20])))
+            res["discharged"] = 0
+        # 5. independent re-check (thorough)
+        if tier == "thorough":
+            rc, out = sh(["lake", "env", "leanchecker", "SettlusModel.Properties." + pid], cwd=lean, timeout=3000)
+            res["leanchecker"] = "ok" if rc == 0 else out[-800:]
+            if rc != 0:
+                res["problems"].append(("audit", "leanchecker rejects the compiled module:\n" + out[-1500:]))
+        res["checker_cmd"] = "cd lean && lake build SettlusModel.Properties.%s && lake env lean <#print axioms of every theorem>%s" % (pid, " && lake env leanchecker SettlusModel.Properties.%s" % pid if tier == "thorough" else "")
+    finally:
+        fcntl.flock(lock, fcntl.LOCK_UN)
+        lock.close()
     return res
